@@ -19,6 +19,7 @@ import Mahotas.Model.C18
 import Mahotas.Model.C19
 import Mahotas.Model.C20
 import Mahotas.Model.FilterIter
+import Mahotas.Generated.CScalar
 open Mahotas
 
 def dispatch (a : Args) : String :=
@@ -44,6 +45,7 @@ def dispatch (a : Args) : String :=
   | "c19" => C19.handle a
   | "c20" => C20.handle a
   | "f6" => filterIterHandle a
+  | "cs" => Generated.C.handle a
   | "ping" => "pong"
   | op => s!"error=unknown-op-{op}"
 
